@@ -25,6 +25,8 @@
 #include "stir/SegmentByView.h"
 #include "stir/IndexRange3D.h"
 #include "stir/MultipleDataSetHeader.h"
+#include "stir/modelling/ParametricDiscretisedDensity.h"
+#include "stir/IO/InterfileParametricDiscretisedDensityOutputFileFormat.h"
 #include "stir/listmode/CListModeDataECAT8_32bit.h"
 #include "stir/listmode/CListRecord.h"
 #include "stir/Bin.h"
@@ -824,9 +826,49 @@ read_projdata_checked(const std::string& hs, const std::string& datafile, const 
     sim::probe("damaged_header_accepted_read_reports_error");
 }
 
+bool g_parametric_image = false;
+void
+read_parametric_checked(const std::string& hv, const char* fault)
+{
+  sim::alloc::reset();
+  try
+    {
+      shared_ptr<ParametricVoxelsOnCartesianGrid> img(ParametricVoxelsOnCartesianGrid::read_from_file(hv));
+      check_allocation_cap(fault, "a parametric image header");
+      if (img)
+        {
+          double s = 0;
+          for (unsigned k = 1; k <= ParametricVoxelsOnCartesianGrid::get_num_params(); ++k)
+            {
+              const ParametricVoxelsOnCartesianGrid::SingleDiscretisedDensityType single = img->construct_single_density(k);
+              for (auto it = single.begin_all(); it != single.end_all(); ++it)
+                s += *it;
+            }
+          (void)s;
+          sim::probe("damaged_header_accepted_consistent");
+        }
+      else
+        sim::probe("damaged_header_rejected");
+    }
+  catch (const sim::Violation&)
+    {
+      throw;
+    }
+  catch (...)
+    {
+      check_allocation_cap(fault, "a parametric image header");
+      sim::probe("damaged_header_rejected");
+    }
+}
+
 void
 read_image_checked(const std::string& hv, const char* fault, long at)
 {
+  if (g_parametric_image)
+    {
+      read_parametric_checked(hv, fault);
+      return;
+    }
   sim::alloc::reset();
   try
     {
@@ -1136,8 +1178,26 @@ op_interfile(const Plan& p, const Op& op, sim::Result& res)
       VoxelsOnCartesianGrid<float> img(vu::make_exam_info(), IndexRange3D(0, (int)(p.c("nz", 2) % 4), -2, 2, -3, 2), CartesianCoordinate3D<float>(0, 0, 0),
                                        CartesianCoordinate3D<float>(2.f, 1.5f, 1.5f));
       img.fill(2.f);
-      InterfileOutputFileFormat fmt;
-      fmt.write_to_file(dir + "/im", img);
+      g_parametric_image = p.c("img_flavour", 0) == 1;
+      if (g_parametric_image)
+        {
+          // a parametric image (two kinetic parameters per voxel) in one Interfile header + data file
+          ParametricVoxelsOnCartesianGrid par(ParametricVoxelsOnCartesianGridBaseType(img.get_index_range(), img.get_origin(), img.get_grid_spacing()));
+          par.set_exam_info(img.get_exam_info());
+          for (unsigned k = 1; k <= ParametricVoxelsOnCartesianGrid::get_num_params(); ++k)
+            {
+              img.fill((float)k);
+              par.update_parametric_image(img, k);
+            }
+          InterfileParametricDiscretisedDensityOutputFileFormat<ParametricVoxelsOnCartesianGridBaseType> pfmt;
+          pfmt.write_to_file(dir + "/im", par);
+          sim::probe("parametric_header_checked");
+        }
+      else
+        {
+          InterfileOutputFileFormat fmt;
+          fmt.write_to_file(dir + "/im", img);
+        }
       header_path = dir + "/im.hv";
       data_path = dir + "/im.v";
     }
@@ -1233,6 +1293,27 @@ op_interfile(const Plan& p, const Op& op, sim::Result& res)
         }
       sim::fired("INDEX", n);
     }
+  else if (op.kind.find("longvalues") != std::string::npos)
+    {
+      // every value replaced by a 1100-character word (a path that does not fit the fixed-size file name buffers)
+      size_t pos = 0;
+      const std::string word(1100, 'x');
+      while (pos < header.size())
+        {
+          size_t eol = header.find('\n', pos);
+          if (eol == std::string::npos)
+            eol = header.size();
+          const size_t assign = header.find(":=", pos);
+          if (assign != std::string::npos && assign < eol && assign + 2 < eol)
+            {
+              spit_text(header_path, header.substr(0, assign + 2) + " " + word + header.substr(eol));
+              check("LONG_VALUE", (long)assign);
+              ++n;
+            }
+          pos = eol + 1;
+        }
+      sim::fired("LONG_VALUE", n);
+    }
   else if (op.kind.find("numbers") != std::string::npos)
     {
       for (auto& m : number_mutations(header))
@@ -1291,17 +1372,19 @@ gen(uint64_t seed, const std::string& tier, long idx)
   p.cfg["nz"] = r.range(0, 3);
   p.cfg["max_positions"] = tier == "thorough" ? 1000000 : 300;
   p.cfg["pd_flavour"] = r.chance(0.4) ? 0 : r.range(1, 3);
+  p.cfg["img_flavour"] = r.chance(0.4);
   static const char* kinds[] = { "registry_round_trip", "registry_eof", "registry_badbit", "registry_flip", "registry_lines", "keyparser",
                                  "interfile_pd_eof", "interfile_pd_flip", "interfile_pd_lines", "interfile_pd_datasize", "interfile_img_eof",
                                  "interfile_img_flip", "interfile_img_lines", "interfile_img_datasize", "keyparser", "registry_round_trip",
                                  "registry_values", "registry_index", "interfile_pd_index", "interfile_img_index",
                                  "interfile_lm_eof", "interfile_lm_flip", "interfile_lm_lines", "interfile_lm_index",
                                  "multi_eof", "multi_flip", "multi_lines", "multi_index", "registry_values", "registry_values",
-                                 "interfile_pd_numbers", "interfile_img_numbers", "interfile_lm_numbers", "multi_numbers" };
+                                 "interfile_pd_numbers", "interfile_img_numbers", "interfile_lm_numbers", "multi_numbers",
+                                 "interfile_pd_longvalues", "interfile_img_longvalues", "interfile_lm_longvalues", "multi_longvalues" };
   Op o;
-  o.kind = kinds[idx % 34];
-  // class index walks through all registered classes (the three registry_values slots of a block of 34 take three classes)
-  const long walk = o.kind == std::string("registry_values") ? idx / 34 * 3 + (idx % 34 == 16 ? 0 : (idx % 34 == 28 ? 1 : 2)) : idx / 34;
+  o.kind = kinds[idx % 38];
+  // class index walks through all registered classes (the three registry_values slots of a block of 38 take three classes)
+  const long walk = o.kind == std::string("registry_values") ? idx / 38 * 3 + (idx % 38 == 16 ? 0 : (idx % 38 == 28 ? 1 : 2)) : idx / 38;
   o.a.push_back(walk + (long)r.below(3) * 1000003L);
   o.a.push_back((long)r.below(100000));
   p.ops.push_back(o);
